@@ -32,6 +32,8 @@ static pending_call_t *call_list_free;
 static time_t call_out_time = 0;
 static int num_call;
 static int unique = 0;
+/* the second whose slot call_out() is processing right now (0 = not inside a sweep step) */
+static time_t sweeping_second = 0;
 
 static void free_call (pending_call_t *);
 static void free_called_call (pending_call_t *);
@@ -128,6 +130,13 @@ int new_call_out (object_t * ob, svalue_t * fun, time_t delay, int num_args, sva
   /* Find out which slot this one fits in */
   tm = (delay + current_time) & (CALLOUT_CYCLE_SIZE - 1);
   delay = (1 + (delay + current_time - call_out_time - 1) / CALLOUT_CYCLE_SIZE);
+  /* Called from a call_out callback: the slot of the second being processed has
+   * already been visited for that second, although call_out_time only advances
+   * at the end of the step. Do not count that visit again, or the new call_out
+   * fires one wheel rotation (CALLOUT_CYCLE_SIZE seconds) late.
+   */
+  if (sweeping_second && tm == (int)(sweeping_second & (CALLOUT_CYCLE_SIZE - 1)))
+    delay--;
 
   for (copp = &call_list[tm]; *copp; copp = &(*copp)->next)
     {
@@ -176,6 +185,7 @@ call_out ()
     }
   if (!call_out_time)
     call_out_time = current_time;
+  sweeping_second = 0;
   save_context (&econ);
 
   while (call_out_time < current_time)
@@ -183,6 +193,7 @@ call_out ()
       /* we increment at the end in case we are interrupted by errors,
          but we need to use call_out_time + 1 here. */
       tm = (call_out_time + 1) & (CALLOUT_CYCLE_SIZE - 1);
+      sweeping_second = call_out_time + 1;
       if (call_list[tm] && --call_list[tm]->delta == 0)
         do
           {
@@ -259,6 +270,7 @@ call_out ()
           }
         while (call_list[tm] && call_list[tm]->delta == 0);
       call_out_time++;
+      sweeping_second = 0;
     }
 
   pop_context (&econ);
